@@ -676,6 +676,13 @@ func (s *Stack) AgentID(p *Proc, who, class string) string {
 		return "not-a-uuid"
 	case "unknown":
 		return "12345678-1234-1234-1234-123456789abc"
+	case "old":
+		if op := s.oldProc(p); op != nil {
+			op.mu.Lock()
+			defer op.mu.Unlock()
+			return op.AgentID
+		}
+		return "12345678-1234-1234-1234-123456789abc"
 	}
 	if p != nil && p.Kind == "ext" {
 		p.mu.Lock()
@@ -702,7 +709,14 @@ func (s *Stack) ExtNext(p *Proc, who, idClass string) CallResult {
 	} else if idClass == "" {
 		idClass = "missing" // this party never obtained an identifier
 	}
-	cid := s.Rec.Emit(who, "NextCall", "who", who, "gen", gen(p), "idc", idClass, "idgen", s.idGen(p, who))
+	idg := s.idGenClass(p, who, idClass)
+	if idClass == "old" {
+		idClass = "" // a well-formed identifier; whose it is says idgen
+		if idg == 0 {
+			idClass = "unknown"
+		}
+	}
+	cid := s.Rec.Emit(who, "NextCall", "who", who, "gen", gen(p), "idc", idClass, "idgen", idg)
 	r := s.do(p, "GET", "/2020-01-01/extension/event/next", h, nil)
 	var ev map[string]interface{}
 	_ = json.Unmarshal(r.Body, &ev)
@@ -777,6 +791,38 @@ func (s *Stack) curGen() int {
 }
 
 // idGen returns the generation in which the identifier used by `who` was issued.
+// oldProc: the latest process of the same extension in an earlier generation that obtained an identifier
+func (s *Stack) oldProc(p *Proc) *Proc {
+	if p == nil {
+		return nil
+	}
+	var best *Proc
+	for _, q := range s.Sup.All() {
+		if q.Kind == p.Kind && q.Base == p.Base && q.Gen < p.Gen {
+			q.mu.Lock()
+			has := q.AgentID != ""
+			q.mu.Unlock()
+			if has && (best == nil || q.Gen > best.Gen) {
+				best = q
+			}
+		}
+	}
+	return best
+}
+
+// idGenClass: the registration call that issued the identifier a call of this class carries
+func (s *Stack) idGenClass(p *Proc, who, class string) int {
+	if class == "old" {
+		if op := s.oldProc(p); op != nil {
+			op.mu.Lock()
+			defer op.mu.Unlock()
+			return op.idGen
+		}
+		return 0
+	}
+	return s.idGen(p, who)
+}
+
 func (s *Stack) idGen(p *Proc, who string) int {
 	if p != nil && p.Kind == "ext" {
 		p.mu.Lock()
